@@ -48,11 +48,12 @@ PER_CALL = {
 }
 # Receivers the dataflow cannot type, confirmed by reading (one symbol, one reason per row).
 RECEIVER_FACTS = {
-    ('lark.parse_tree_builder:ChildFilterLALR.__call__', 'filtered'):
-        'percall: either a list built here or the child list of a Tree popped from the per-call value stack '
-        '(the documented in-place reuse; fork safety is R-FORK-ALIAS / R-SHALLOW-FORK)',
-    ('lark.parse_tree_builder:ChildFilterLALR_NoPlaceholders.__call__', 'filtered'):
-        'percall: same in-place reuse as ChildFilterLALR',
+    # function -> (shape of a definition of the receiver local, reason)
+    'lark.parse_tree_builder:ChildFilterLALR.__call__':
+        ('$c[$i].children', 'percall: either a list built here or the child list of a Tree popped from the per-call value stack '
+                            '(the documented in-place reuse; fork safety is R-FORK-ALIAS / R-SHALLOW-FORK)'),
+    'lark.parse_tree_builder:ChildFilterLALR_NoPlaceholders.__call__':
+        ('$c[$i].children', 'percall: same in-place reuse as ChildFilterLALR'),
 }
 EXC_BASE = 'lark.exceptions:LarkError'
 POSTLEX = 'lark.lark:PostLex'
@@ -722,12 +723,16 @@ def _run_effects(ctx: Ctx, rule_id: str, description: str, entries: List[str], f
                             path=cg.path_to(reach, f.qual))
                 classified['shared'] += 1
                 continue
-            fact = RECEIVER_FACTS.get((f.qual, norm(w.recv)))
-            if fact is not None:
-                used_facts.add((f.qual, norm(w.recv)))
-                classified['percall'] += 1
-                res.ob(site, desc + ': ' + fact, True)
-                continue
+            fact = RECEIVER_FACTS.get(f.qual)
+            if fact is not None and isinstance(w.recv, ast.Name):
+                from ..exprs import unify, pat
+                defs_ = [x.value for x in f.body_nodes() if isinstance(x, ast.Assign)
+                         and any(isinstance(t, ast.Name) and t.id == w.recv.id for t in x.targets)]
+                if any(unify(pat(fact[0]), d) is not None and unify(pat(fact[0]), d).get('c') in f.param_names() for d in defs_):
+                    used_facts.add(f.qual)
+                    classified['percall'] += 1
+                    res.ob(site, desc + ': ' + fact[1], True)
+                    continue
             if w.what == 'aug' and isinstance(w.recv, ast.Name):
                 # augmented assignment to a plain name: in-place only for mutable containers
                 if not any(t in ('b:list', 'b:set', 'b:dict', 'b:deque', 'b:defaultdict') or t.startswith('C:') for t in recv_t):
@@ -828,7 +833,7 @@ def _run_effects(ctx: Ctx, rule_id: str, description: str, entries: List[str], f
     stale = set(RECEIVER_FACTS) - used_facts
     if stale and full:
         raise AnalysisError('receiver-facts rows matched nothing (code moved?): %s' % sorted(stale))
-    res.tables['receiver_facts'] = {'%s :: %s' % k: v for k, v in RECEIVER_FACTS.items()}
+    res.tables['receiver_facts'] = {k: '%s: %s' % v for k, v in RECEIVER_FACTS.items()}
     res.tables['reachable_functions'] = len(reach)
     res.tables['writes'] = n_writes
     res.tables['classification'] = classified
